@@ -92,7 +92,8 @@ def variants(path):
             if isinstance(n.ops[0], ast.Eq) and isinstance(n.comparators[0], ast.Constant) and n.comparators[0].value == 0 and isinstance(n.left, ast.Call) \
                     and isinstance(n.left.func, ast.Name) and n.left.func.id == "len" and isinstance(getattr(n, "parent", None), ast.If) and n.parent.test is n:
                 yield emit("lenzero", n, ast.UnaryOp(op=ast.Not(), operand=n.left.args[0]))
-        if isinstance(n, ast.If) and n.orelse and not (len(n.orelse) == 1 and isinstance(n.orelse[0], ast.If)) and pure(n.test):
+        if isinstance(n, ast.If) and n.orelse and not (len(n.orelse) == 1 and isinstance(n.orelse[0], ast.If)) and pure(n.test) \
+                and not text[seg(n)[0]:seg(n)[0] + 4] == "elif":          # re-printing an `elif` arm as `if` would detach it from its chain
             new = ast.If(test=ast.UnaryOp(op=ast.Not(), operand=n.test), body=n.orelse, orelse=n.body)
             yield emit("negate", n, new)
         if isinstance(n, ast.BinOp) and isinstance(n.op, (ast.Add, ast.Mult)) and pure(n.left) and pure(n.right) and numeric(n):
